@@ -30,6 +30,14 @@ import (
 )
 
 func init() {
+	domains["loadrep"] = domain{runLoadRep,
+		"wide shallow include trees (2..6 files, most of them siblings included by the root, one file under several " +
+			"namespaces, diamonds, two variable names shared by all files), each loaded 40 (quick) / 200 (thorough) times in " +
+			"one process; every load must give the same dump and the dump must equal the model's canonical merge; " +
+			"distinct = tree shape with at least two sibling includes or one file included twice and a name defined at two sites"}
+	domains["loaddeep"] = domain{runLoadDeep,
+		"the include trees of domain load (depth <= 3 quick / 4 thorough, every include option), three variable names, " +
+			"each loaded 25 (quick) / 120 (thorough) times in one process; all dumps equal and equal to the model; distinct as in load"}
 	domains["load"] = domain{runLoad,
 		"include trees of 2..6 files (depth <= 3 quick / 4 thorough; diamonds, one file under several namespaces, " +
 			"cycles, missing/optional files, version/dotenv errors) with every include option and task attribute drawn " +
@@ -855,7 +863,7 @@ func (c *Ctx) genVars(max int) []ldVar {
 	seen := map[int]bool{}
 	var out []ldVar
 	for i := 0; i < n; i++ {
-		k := 1 + c.Rng.Intn(5)
+		k := 1 + c.Rng.Intn(ldKeyPool)
 		if !seen[k] {
 			seen[k] = true
 			out = append(out, ldVar{k, 1 + c.Rng.Intn(40)})
@@ -969,8 +977,23 @@ func (c *Ctx) genInclude(ns string, target int, childTasks []string) ldInclude {
 	return inc
 }
 
+// ldGenCfg biases the tree generator.
+type ldGenCfg struct {
+	maxDepth     int
+	pRootParent  int // chance (percent) that a file is included by the root itself
+	pExtraParent int // chance per candidate of an additional parent (diamonds)
+	pTwice       int // chance that an include statement is doubled under another namespace
+	keyPool      int // variable names are drawn from K1..K<keyPool>
+	pInject      int // percent of trees with an injected load error (scaled)
+	refsMonitor  bool // also evaluate the root-reference monitor (property C08 only)
+}
+
+var ldKeyPool = 5
+
 // genTree builds one abstract include tree.
-func (c *Ctx) genTree(maxDepth int) ldCase {
+func (c *Ctx) genTree(cfg ldGenCfg) ldCase {
+	maxDepth := cfg.maxDepth
+	ldKeyPool = cfg.keyPool
 	n := 2 + c.Rng.Intn(5)
 	gf := make([]*ldGenFile, n)
 	usedBase := map[string]bool{}
@@ -1008,10 +1031,13 @@ func (c *Ctx) genTree(maxDepth int) ldCase {
 			}
 		}
 		p := cands[c.Rng.Intn(len(cands))]
+		if c.chance(cfg.pRootParent) {
+			p = 0
+		}
 		gf[i].parents = []int{p}
 		gf[i].depth = gf[p].depth + 1
 		for _, j := range cands {
-			if j != p && c.chance(22) {
+			if j != p && c.chance(cfg.pExtraParent) {
 				gf[i].parents = append(gf[i].parents, j)
 				if gf[j].depth+1 > gf[i].depth {
 					gf[i].depth = gf[j].depth + 1
@@ -1066,7 +1092,7 @@ func (c *Ctx) genTree(maxDepth int) ldCase {
 	for i := 1; i < n; i++ {
 		for _, p := range gf[i].parents {
 			gf[p].f.Includes = append(gf[p].f.Includes, c.genInclude(freshNS(p), gf[i].f.ID, childTaskNames(i)))
-			if c.chance(18) {
+			if c.chance(cfg.pTwice) {
 				gf[p].f.Includes = append(gf[p].f.Includes, c.genInclude(freshNS(p), gf[i].f.ID, childTaskNames(i)))
 				c.Hit("shape:same-file-twice")
 			}
@@ -1078,7 +1104,7 @@ func (c *Ctx) genTree(maxDepth int) ldCase {
 	}
 	// one injected load error at most
 	note := ""
-	switch r := c.Rng.Intn(100); {
+	switch r := c.Rng.Intn(100) * 26 / (cfg.pInject + 1); {
 	case r < 6 && n > 2:
 		// include cycle: a file includes one of its ancestors (or itself)
 		i := 1 + c.Rng.Intn(n-1)
@@ -1166,6 +1192,24 @@ func hasColonRef(d *ldCase) bool {
 }
 
 func runLoad(c *Ctx) {
+	runLoadWith(c, c.Pick(260, 2200), c.Pick(20, 100),
+		ldGenCfg{maxDepth: c.Pick(3, 4), pRootParent: 0, pExtraParent: 22, pTwice: 18, keyPool: 5, pInject: 25, refsMonitor: true})
+}
+
+// runLoadDeep (property C09): the trees of domain load, without the C08 reference monitor.
+func runLoadDeep(c *Ctx) {
+	runLoadWith(c, c.Pick(200, 1500), c.Pick(25, 120),
+		ldGenCfg{maxDepth: c.Pick(3, 4), pRootParent: 0, pExtraParent: 25, pTwice: 22, keyPool: 3, pInject: 20})
+}
+
+// runLoadRep (property C09): wide, shallow trees — many sibling includes of one parent,
+// one file under several namespaces, diamonds, few variable names — loaded more often.
+func runLoadRep(c *Ctx) {
+	runLoadWith(c, c.Pick(110, 700), c.Pick(40, 200),
+		ldGenCfg{maxDepth: 2, pRootParent: 70, pExtraParent: 30, pTwice: 35, keyPool: 2, pInject: 8})
+}
+
+func runLoadWith(c *Ctx, n, loads int, cfg ldGenCfg) {
 	if c.Replay(func(raw []byte) (string, string) {
 		var d ldCase
 		mustJSON(raw, &d)
@@ -1173,15 +1217,12 @@ func runLoad(c *Ctx) {
 	}) {
 		return
 	}
-	n := c.Pick(260, 2200)
-	loads := c.Pick(20, 100)
-	maxDepth := c.Pick(3, 4)
 	// generate first (all randomness from c.Rng, sequentially), evaluate on a worker
 	// pool (independent directories; more scheduling variety for the reader's goroutines),
 	// emit in generation order
 	var cases []ldCase
 	for i := 0; i < n; i++ {
-		d := c.genTree(maxDepth)
+		d := c.genTree(cfg)
 		d.Loads = loads
 		if i%3 == 0 {
 			d.Probe = 1 + c.Rng.Intn(4)
@@ -1191,7 +1232,7 @@ func runLoad(c *Ctx) {
 			c.Distinct(key)
 		}
 		cases = append(cases, d)
-		if hasColonRef(&d) {
+		if cfg.refsMonitor && hasColonRef(&d) {
 			r := d
 			r.Op = "refs"
 			r.Probe = 0
